@@ -34,31 +34,40 @@ def seeds_for(prop):
     return out
 
 
+def _one(prop, sid, patch):
+    d = tempfile.mkdtemp(prefix="ohg-selftest-")
+    try:
+        subprocess.run(["rsync", "-a", "--exclude", "target", "--exclude", ".git", REPO + "/", d + "/repo/"],
+                       capture_output=True, text=True)
+        ap = subprocess.run(["patch", "-p1", "-s", "-d", d + "/repo", "-i", patch], capture_output=True, text=True)
+        if ap.returncode != 0:
+            return sid, "skipped", None
+        env = dict(os.environ, OHSA_REPO=d + "/repo", OHSA_CACHE=d + "/cache", OHSA_OUT=d + "/out",
+                   OHSA_NO_SELFTEST="1")
+        rr = subprocess.run(["python3", os.path.join(HERE, "check.py"), prop, "--tier", "quick"], env=env,
+                            capture_output=True, text=True, timeout=1800)
+        nv = sum(1 for l in rr.stdout.splitlines() if l.startswith("VIOLATION"))
+        return sid, nv, rr.returncode
+    finally:
+        shutil.rmtree(d, ignore_errors=True)
+
+
 def run(prop):
+    """Seeds are independent scratch copies: four at a time (each analysis is itself parallel)."""
+    from concurrent.futures import ThreadPoolExecutor
     summary = {"seeds": [], "detected": 0, "skipped": 0}
     errors = []
-    for sid, patch in seeds_for(prop):
-        d = tempfile.mkdtemp(prefix="ohg-selftest-")
-        try:
-            r = subprocess.run(["rsync", "-a", "--exclude", "target", "--exclude", ".git", REPO + "/", d + "/repo/"],
-                               capture_output=True, text=True)
-            ap = subprocess.run(["patch", "-p1", "-s", "-d", d + "/repo", "-i", patch], capture_output=True, text=True)
-            if ap.returncode != 0:
-                summary["seeds"].append({"seed": sid, "result": "skipped: patch does not apply to the current tree"})
-                summary["skipped"] += 1
-                continue
-            env = dict(os.environ, OHSA_REPO=d + "/repo", OHSA_CACHE=d + "/cache", OHSA_OUT=d + "/out",
-                       OHSA_NO_SELFTEST="1")
-            rr = subprocess.run(["python3", os.path.join(HERE, "check.py"), prop, "--tier", "quick"], env=env,
-                                capture_output=True, text=True, timeout=1800)
-            nv = sum(1 for l in rr.stdout.splitlines() if l.startswith("VIOLATION"))
-            if nv > 0:
-                summary["detected"] += 1
-                summary["seeds"].append({"seed": sid, "result": f"detected ({nv} violation lines)"})
-            else:
-                summary["seeds"].append({"seed": sid, "result": "NOT detected", "exit": rr.returncode})
-                errors.append(f"sensitivity self-test: seeded change {sid} is no longer detected by {prop} "
-                              f"(exit {rr.returncode})")
-        finally:
-            shutil.rmtree(d, ignore_errors=True)
+    seeds = seeds_for(prop)
+    with ThreadPoolExecutor(max_workers=4) as ex:
+        results = list(ex.map(lambda sp: _one(prop, sp[0], sp[1]), seeds))
+    for sid, nv, rc in results:
+        if nv == "skipped":
+            summary["seeds"].append({"seed": sid, "result": "skipped: patch does not apply to the current tree"})
+            summary["skipped"] += 1
+        elif nv > 0:
+            summary["detected"] += 1
+            summary["seeds"].append({"seed": sid, "result": f"detected ({nv} violation lines)"})
+        else:
+            summary["seeds"].append({"seed": sid, "result": "NOT detected", "exit": rc})
+            errors.append(f"sensitivity self-test: seeded change {sid} is no longer detected by {prop} (exit {rc})")
     return {"summary": summary, "errors": errors}
